@@ -445,10 +445,14 @@ func (c *RetryClient) Retry(ctx context.Context) {
 			c.stats.TotalRetries++
 			c.muStats.Unlock()
 
-			err := retry(ctx, cli)
+			ctx2, cancel := c.requestContext(ctx)
+			err := retry(ctx2, cli)
+			cancel()
 			if retryErr, ok := err.(ErrorWithRetry); ok {
+				c.onError(err)
 				c.retryQueue = append(c.retryQueue, retryErr.Retry)
 				c.retryQueue = append(c.retryQueue, oldRetryQueue[i+1:]...)
+				c.newRetryByError = true
 				break
 			}
 		}
